@@ -15,6 +15,7 @@ LIFTS = {
     "third": lambda c: 1000.0 + c / 3.0,
     "tiny": lambda c: -5.0 + 1e-2 * c,
     "big": lambda c: 100.0 * c - 1e3 + 0.1,
+    "farfine": lambda c: 25000.0 + 0.01 * c,     # far from the origin with fine differences (4e-7 relative): relative tolerances
 }
 
 
@@ -272,12 +273,12 @@ def run(tier, seed):
     rnd = random_histories(150 if tier == "quick" else 3000, rng)
     jobs, meta = [], {}
     for i, h in enumerate(hists):
-        lift = ("id", "tenth", "third", "tiny", "big")[i % 5]
+        lift = ("id", "tenth", "third", "tiny", "big", "farfine")[i % 6]
         hid = f"s{i}"
         jobs.append((hid, h, lift, seed + i))
         meta[hid] = (h, lift, seed + i)
     for i, h in enumerate(rnd):
-        for lift in (("id", "tenth") if tier == "quick" else tuple(LIFTS)):
+        for lift in (("id", "tenth", "farfine") if tier == "quick" else tuple(LIFTS)):
             hid = f"r{i}{lift[:2]}"
             jobs.append((hid, h, lift, seed + i))
             meta[hid] = (h, lift, seed + i)
